@@ -189,8 +189,33 @@ crd write conv --command cmt`,
 		if err != nil {
 			return err
 		}
-		return writeYamlOutput(cmd, wArgs.instances)
+		return writeYamlOutput(cmd, toInputInstances(wArgs.instances))
 	},
+}
+
+// toInputInstances turns converted instances back into the document format crd write reads.
+func toInputInstances(instances []op.Instance) []*input.Instance {
+	result := make([]*input.Instance, len(instances))
+	for i, x := range instances {
+		v := &input.Instance{
+			Values:   x.Values,
+			BPM:      x.BPM,
+			Velocity: x.Velocity,
+			Meter:    x.Meter,
+			Key:      x.Key,
+			Meta:     x.Meta,
+		}
+		if c := x.Chord; c != nil {
+			base := c.Base
+			v.Chord = &input.Chord{
+				Degree: c.Degree,
+				Chord:  c.Chord.Name,
+				Base:   &base,
+			}
+		}
+		result[i] = v
+	}
+	return result
 }
 
 var writeCmdParse = &cobra.Command{
